@@ -247,6 +247,20 @@ def bypassPartitionOnly (w : World) (r : StepResult) : Bool :=
     else true
   | _, _, _ => true
 
+/-- **C03 (which pods the canary Service will select)** — when a reconcile finds the step's pods ready (the status goes
+    from `StepInit` / `StepUpgrade` to `StepTrafficRouting` or, on the bypass, `StepMetricsAnalysis`), the pod-template
+    hash it records — the revision the canary Service selects from then on — is the workload's `PodTemplateHash` as the
+    finder reports it *now*: for a canary-style Deployment the hash of the canary Deployment's ReplicaSet, not the
+    update revision of the stable Deployment and not a value recorded earlier. -/
+def upgradeRecordsPodHash (w : World) (r : StepResult) : Bool :=
+  match w.ro.sub, r.w.ro.sub, w.wl with
+  | some s, some s', some wl =>
+    if inRollingNow w.ro ∧ r.w.ro.reason = .inRolling ∧ wl.consistent ∧ (s.state = .init ∨ s.state = .upgrade) ∧
+       (s'.state = .trafficRouting ∨ s'.state = .metricsAnalysis) then
+      s'.podHash == wl.podTemplateHash
+    else true
+  | _, _, _ => true
+
 /-- the antecedent of `firstStepPinsStable` (for the coverage statistics only) -/
 def firstStepLeft (w : World) (r : StepResult) : Bool :=
   match w.ro.sub, r.w.ro.sub, w.wl with
@@ -267,6 +281,7 @@ def bypassTaken (w : World) (r : StepResult) : Bool :=
 /-- the oracles added with the canary-style worlds (evaluated next to `stepOracles`) -/
 def canaryStyleOracles (w : World) (r : StepResult) : List (String × Bool) :=
   [("C03.first_step_pins_stable", firstStepPinsStable w r),
+   ("C03.upgrade_records_pod_hash", upgradeRecordsPodHash w r),
    ("C03.bypass_partition_only", bypassPartitionOnly w r),
    ("C04.bypass_partition_only", bypassPartitionOnly w r)]
 
